@@ -684,7 +684,7 @@ func main() {
 	for _, c := range corpus() {
 		emit(c)
 	}
-	n := f.Count(1200, 40000)
+	n := f.Count(900, 25000)
 	for i := 0; i < n; i++ {
 		emit(genCase(gen.Fork(f.Seed, i)))
 	}
